@@ -1,5 +1,6 @@
 (* C10 — tree-form reads equal step-by-step navigation; unresolved paths are Undefined. *)
-From Anytype Require Import Base FloatBits Value GoInt Heap TreeFormProofs TreeFormFacts.
+From Anytype Require Import Base FloatBits Value GoInt Heap TreeFormProofs TreeFormFacts TreeFormMalformed.
+From Anytype Require Import SourceTables. From AnytypeGen Require Import GenTables.
 Local Open Scope Z_scope.
 
 (* [get_tf]/[typeof_tf] transcribe GetTF/TypeOfTF of both containers (string surgery included);
@@ -22,6 +23,24 @@ Theorem C10_agree : forall fuel h v s,
   typeof_tf fuel h v s = match get_tf fuel h v s with Ok x => hkind x | Panic => KUndefined end.
 Proof. exact tf_agree. Qed.
 
+(* malformed strings are Undefined / panic, for every heap whose object keys are non-empty and do not start with a sigil:
+   an EMPTY segment (string shorter than one segment, two adjacent sigils, a trailing sigil) ... *)
+Theorem C10_empty_segment : forall fuel h v s, heap_keys_plain h -> has_empty_segment s = true ->
+  typeof_tf fuel h v s = KUndefined /\ get_tf fuel h v s = Panic.
+Proof. exact empty_segment_undefined. Qed.
+(* ... a wrong leading sigil (lists start with '#', objects with '.'), a scalar receiver ... *)
+Theorem C10_wrong_sigil_list : forall fuel h id s, (forall c t, s = c :: t -> byte_eqb c x23 = false) ->
+  typeof_tf fuel h (HL id) s = KUndefined /\ get_tf fuel h (HL id) s = Panic.
+Proof. exact wrong_leading_sigil_undefined. Qed.
+Theorem C10_wrong_sigil_object : forall fuel h id s, (forall c t, s = c :: t -> byte_eqb c x2e = false) ->
+  typeof_tf fuel h (HO id) s = KUndefined /\ get_tf fuel h (HO id) s = Panic.
+Proof. exact wrong_leading_sigil_undefined_obj. Qed.
+(* ... and an index segment that strconv.ParseInt(base 0) does not accept *)
+Theorem C10_non_numeric_index : forall fuel h id l s rest, get_list h id = Some l -> s = x23 :: rest ->
+  (forall seg, (split_tf rest = SegLeaf -> seg = rest) -> (forall d, (split_tf rest = SegDot d \/ split_tf rest = SegHash d) -> seg = firstn d rest) -> pint0 seg = None) ->
+  typeof_tf fuel h (HL id) s = KUndefined /\ get_tf fuel h (HL id) s = Panic.
+Proof. exact non_numeric_index_undefined. Qed.
+
 Example C10_nonvacuous :
   (* {"a": [10, {"b": "x"}]} : ".a#1.b" resolves to "x", ".a#2" and ".a.b" and "#0" do not *)
   let h := [CObj [(B"b", HStr (B"x"))]; CList [HInt 10; HO 0]; CObj [(B"a", HL 1)]] in
@@ -36,6 +55,16 @@ Example C10_sigil_key_resolves :
   let h := [CObj [(B".x", HInt 1)]] in typeof_tf 10 h (HO 0) (B"..x") = KInt /\ get_tf 10 h (HO 0) (B"..x") = Ok (HInt 1).
 Proof. vm_compute. split; reflexivity. Qed.
 
+
+(* ---- the numbering of the Type constants (what TypeOf / TypeOfTF return), as read from the source on every run ---- *)
+Theorem C10_type_constants_generated : gen_type_consts = model_type_consts.
+Proof. vm_compute. reflexivity. Qed.
+
 Print Assumptions C10_get.
 Print Assumptions C10_typeof.
 Print Assumptions C10_agree.
+Print Assumptions C10_empty_segment.
+Print Assumptions C10_wrong_sigil_list.
+Print Assumptions C10_wrong_sigil_object.
+Print Assumptions C10_non_numeric_index.
+Print Assumptions C10_type_constants_generated.
